@@ -812,6 +812,16 @@ func init() {
 					}
 					cfg.PFileTypes = 35
 				}
+				if i%12 == 5 {
+					// file skeleton 12: every output of the volatile producer is a string,
+					// string collection or struct of strings naming a file it wrote; two
+					// successive slow readers
+					fc := cases[len(cases)-1]
+					fc.Template = pgen.NTemplates + 12 + 1
+					fc.Tweak = func(s *pgen.Spec) { s.PathInStringPct = 100 }
+					fc.Vdr = []string{"rolling", "strict", "rolling", "post"}[(i/12)%4]
+					fc.DelayMs = 250
+				}
 				if i%6 == 3 {
 					// the pipestance directory is reached through a symlinked parent
 					// directory, and half of the output files are named by the stage
